@@ -51,6 +51,10 @@ NOT_PROVED = ('Behaviour when the negotiation is not confirmed but the peer enab
               'exceptions, the 2 s put timeout, pause()/restart(), rate limiting and relaxation sleeps (timing), the '
               'shared-radio multiplexing thread, real firmware conformance to the peer model.')
 
+EXPLANATION = ('Alternating-bit (safelink) radio loop: Coq model of host loop + reconstructed peer + lossy channel; invariant proved '
+               'for all event lists; model compared with the real loop run synchronously on a fake USB dongle; oracle restates '
+               'the property on the observables, also on sessions with real threads.')
+
 HEADER = 'From CF Require Import Common.Bytes C01.Model.\nOpen Scope Z_scope.\n'
 
 
@@ -312,9 +316,29 @@ def host_case(rng, maxlen):
             evs.append(['S', rng.randrange(256), [rng.randrange(256) for _ in range(rng.randrange(0, 5))]])
         elif r < 0.35:
             evs.append(['R'])
+        elif r < 0.38:
+            # a run of acknowledged answers without payload (drives emptyCtr, at times past its threshold of 10)
+            st = 0x01 | (rng.randrange(4) << 4)
+            evs += [['W', [st]] for _ in range(rng.choice([3, 6, 7, 8, 9, 12]))]
+            evs.append(['W', [st, rng.randrange(256), rng.randrange(256)]])
         else:
             evs.append(['W', usb(kind < 0.6)])
     return {'N': rng.choice([1, 2, 3, 5]), 'host_only': 1, 'negs': negs, 'evs': evs, 'family': 'host'}
+
+
+def threaded_case(rng, ntx, napp):
+    """real threads: the script holds only the radio-thread side (outcomes, firmware queueing); the application
+    thread submits `napp` packets and polls receive_packet concurrently"""
+    p_loss = rng.choice([0.1, 0.3, 0.6])
+    evs = []
+    for i in range(ntx):
+        if rng.random() < 0.12:
+            evs.append(['Q', _fw_hdr(rng), [i & 0xff, (i >> 8) & 0xff, rng.randrange(256)]])
+        else:
+            evs.append(['T', 'O' if rng.random() > p_loss else rng.choice('UA'), rng.choice([[], [1, 0x21]])])
+    evs.append(['D'])
+    return {'N': rng.choice([2, 5, 1000]), 'p0': dict(P0_STD), 'negs': [rng.choice('UA'), 'O'], 'evs': evs,
+            'threaded': {'n': napp, 'seed': rng.randrange(1 << 30)}, 'family': 'threaded'}
 
 
 def corpus_cases():
@@ -436,3 +460,188 @@ def tie(ctx):
         'exhaustive': False,
         'disagreements': dis,
     }
+
+
+# ------------------------------------------------------------------ oracle: the property text on the real code
+
+def _nn(f):
+    return bool(f) and (f[0] & 0xf3) != 0xf3
+
+
+def _preconditions(case):
+    """the property's hypotheses, on the script itself"""
+    if case.get('host_only'):
+        return False
+    if any(not _nn(q) for q in case['p0'].get('txq', [])):
+        return False
+    for e in case['evs']:
+        if e[0] in ('S', 'Q') and (e[1] & 0xf3) == 0xf3:
+            return False
+        if e[0] == 'W':
+            return False
+    return True
+
+
+def judge(case, sim):
+    """All clauses of C01 on one finished run of the real code.  Returns a list of failure dicts."""
+    fails = []
+
+    def fail(cls, expected, observed, detail):
+        fails.append({'class': cls, 'case': {k: v for k, v in case.items() if k != 'family'},
+                      'expected': expected, 'observed': observed, 'detail': detail})
+    fin = sim.final
+    if getattr(sim, 'hung', False):
+        fail('radio_loop_hung', 'session ends', 'threads still alive after the timeout', 'real-thread session did not finish')
+        return fails
+    # ---- safelink only if confirmed; needs_resending
+    answers = [r[2:] if r[0] != -1 else None for r in sim.neg_resps]
+    conf_at = next((i for i, a in enumerate(answers[:10]) if a == [0xff, 0x05, 0x01]), None)
+    confirmed = conf_at is not None
+    if fin['safe'] != confirmed:
+        fail('safelink_mode_without_confirmation' if fin['safe'] else 'safelink_not_used_after_confirmation',
+             confirmed, fin['safe'], 'safelink must be used iff an attempt was answered by exactly ff 05 01')
+    if fin['n_neg'] != (conf_at + 1 if confirmed else 10) or any(f != [0xff, 0x05, 0x01] for f in sim.neg_frames):
+        fail('negotiation_attempts_wrong', conf_at + 1 if confirmed else 10, fin['n_neg'],
+             'up to 10 attempts of ff 05 01, stopping at the confirmation')
+    if fin['needs_resending'] != (not confirmed):
+        fail('needs_resending_wrong', not confirmed, fin['needs_resending'], 'needs_resending must be "no safelink"')
+    if not confirmed and not case.get('host_only'):
+        allowed = [[0xff]] + sim.accepted
+        bad = [t['frame'] for t in sim.tx if t['frame'] not in allowed]
+        if bad:
+            fail('frames_altered_without_safelink', 'packets as submitted', bad[:3], 'without safelink the header bits are not to be touched')
+    # ---- link error exactly at the N-th consecutive unacknowledged transmission
+    if all(t.get('ack') is not None for t in sim.tx):
+        N = case['N']
+        run, exp_idx = 0, []
+        for i, t in enumerate(sim.tx, 1):
+            if t['ack']:
+                run = 0
+            else:
+                run += 1
+                if run == N:
+                    exp_idx.append(i)
+        got_idx = [i for i, m in sim.errors if m == 'Too many packets lost']
+        if got_idx != exp_idx:
+            fail('link_error_not_exact', exp_idx, got_idx,
+                 'link error must be reported at (and only at) the N-th consecutive unacknowledged transmission, N=%d' % N)
+        other = fin['other_errors']
+        if case.get('threaded'):      # the 2 s put timeout is wall-clock behaviour (machine load), outside the property
+            other = [m for m in other if not m.startswith('RadioDriver: Could not send packet')]
+        if other:
+            fail('unexpected_link_error', [], other[:2], 'no other link error is expected')
+    # ---- exactly once, in order, both directions
+    if confirmed and _preconditions(case):
+        drained = bool(case['evs']) and case['evs'][-1][0] == 'D'
+        acc = [[f[0] & 0xf3] + f[1:] for f in sim.accepted]
+        rx = [f for f in sim.peer.rx if _nn(f)]
+        ok = rx == acc[:len(rx)] and len(acc) - len(rx) <= 2 and (not drained or len(rx) == len(acc))
+        if not ok:
+            fail('uplink_not_exactly_once_in_order', acc, rx,
+                 'packets handed to the Crazyflie must be the accepted ones, once each, in order'
+                 + (' (all of them after the drain)' if drained else ' (at most 2 still pending)'))
+        qd = [[(f[0] & 0xf3) | 0x0c] + f[1:] for f in sim.queued]
+        dl = [f for f in sim.got + fin['inq'] if _nn(f)]
+        gt = [f for f in sim.got if _nn(f)]
+        ok = dl == qd[:len(dl)] and (not drained or gt == qd)
+        if not ok:
+            fail('downlink_not_exactly_once_in_order', qd, dl,
+                 'packets coming out of receive_packet must be the queued ones, once each, in order'
+                 + (' (all of them after the drain)' if drained else ''))
+    return fails
+
+
+def _shrink(case, cls, budget=250):
+    """shortest event prefix (+ drain if the case had one) that still fails with the same class"""
+    evs = case['evs']
+    drained = bool(evs) and evs[-1][0] == 'D'
+    body = evs[:-1] if drained else evs
+    best = case
+    runs = 0
+
+    def still(c):
+        nonlocal runs
+        runs += 1
+        try:
+            return any(f['class'] == cls for f in judge(c, run_impl(c)))
+        except Exception:
+            return cls == 'radio_loop_raised'
+    for n in range(1, len(body)):
+        if runs >= budget:
+            break
+        c = dict(case, evs=body[:n] + ([['D']] if drained else []))
+        if still(c):
+            best = c
+            break
+    body = best['evs'][:-1] if drained else best['evs']
+    i = 0
+    while i < len(body) and runs < budget:
+        c = dict(best, evs=body[:i] + body[i + 1:] + ([['D']] if drained else []))
+        if still(c):
+            best, body = c, body[:i] + body[i + 1:]
+        else:
+            i += 1
+    return best
+
+
+def oracle(ctx, deep=False):
+    res = list(results(ctx))
+    if deep:
+        extra = enum_cases(8, 6) + [random_case(ctx.rng, 200) for _ in range(1500)]
+        for c in extra:
+            try:
+                res.append((c, run_impl(c), None))
+            except Exception:
+                import traceback
+                res.append((c, None, traceback.format_exc()[-1200:]))
+    # real-thread sessions (non-deterministic schedules; oracle only)
+    trng = __import__('random').Random(ctx.seed * 7919 + 13)
+    for _ in range(ctx.scale(8, 80) * (3 if deep else 1)):
+        c = threaded_case(trng, 2500, 250)
+        try:
+            res.append((c, run_impl(c), None))
+        except Exception:
+            import traceback
+            res.append((c, None, traceback.format_exc()[-1200:]))
+    fails = []
+    seen = set()
+    n = 0
+    for c, sim, err in res:
+        n += 1
+        if sim is None:
+            fs = [{'class': 'radio_loop_raised', 'case': {k: v for k, v in c.items() if k != 'family'},
+                   'expected': 'no exception', 'observed': err, 'detail': 'the radio loop raised on a scripted session'}]
+        else:
+            fs = judge(c, sim)
+        for f in fs:
+            if f['class'] in seen:
+                continue
+            seen.add(f['class'])
+            small = f['case'] if f['case'].get('threaded') else _shrink(f['case'], f['class'])
+            if small is not f['case']:
+                try:
+                    f2 = [x for x in judge(small, run_impl(small)) if x['class'] == f['class']]
+                    if f2:
+                        f = f2[0]
+                except Exception:
+                    pass
+            fails.append(f)
+    return {'evaluations': n, 'failures': fails,
+            'rule': 'on every scripted session of the real loop: accepted == received-by-peer (+ <= 2 pending, none after the '
+                    'drain), queued == received-by-application (+ pending), error callback exactly at the N-th consecutive '
+                    'unacknowledged transmission, safelink/needs_resending iff ff 05 01 echoed within 10 attempts, frames '
+                    'untouched without safelink'}
+
+
+def replay(payload, ctx):
+    c = payload['case']
+    try:
+        sim = run_impl(c)
+    except Exception as e:
+        return {'class': 'radio_loop_raised', 'observed': repr(e)}
+    fs = judge(c, sim)
+    want = payload.get('class')
+    for f in fs:
+        if want is None or f['class'] == want:
+            return f
+    return fs[0] if fs else None
